@@ -47,6 +47,22 @@ def tree_hash(srcdir):
 
 
 def build(work):
+    """Build under a lock in a shared directory (cargo incremental cache), copy the binary to `work`."""
+    import fcntl
+    shared = os.path.join(ROOT, '.work', 'bbuild')
+    os.makedirs(shared, exist_ok=True)
+    os.makedirs(work, exist_ok=True)
+    with open(os.path.join(shared, '.lock'), 'w') as lk:
+        fcntl.flock(lk, fcntl.LOCK_EX)
+        binp, log = build_locked(shared)
+        if binp:
+            dst = os.path.join(work, 'verif_bounded')
+            shutil.copy(binp, dst)
+            binp = dst
+    return binp, log
+
+
+def build_locked(work):
     """Copy /repo/src, inject hooks, build. Returns (binary path | None, log)."""
     crate = os.path.join(work, 'crate')
     src = os.path.join(crate, 'src')
